@@ -50,6 +50,11 @@ func c05Shapes(tier string) []c05Shape {
 		{name: "frag-3+ping+0+4", deflate: false, build: func(m bool) []wsref.Frame {
 			return []wsref.Frame{fr(m, 2, false, false, Pattern(0, 3)), fr(m, 9, true, false, []byte("pi")), fr(m, 0, false, false, nil), fr(m, 0, true, false, Pattern(3, 4))}
 		}},
+		{name: "frag-3+0fin,0", deflate: false, build: func(m bool) []wsref.Frame {
+			// empty final fragment, then an empty message: a frame without payload is complete only
+			// when its whole header (mask key included) has arrived
+			return []wsref.Frame{fr(m, 2, false, false, Pattern(0, 3)), fr(m, 0, true, false, nil), fr(m, 1, true, false, nil)}
+		}},
 		{name: "two-msgs-130+126", deflate: false, build: func(m bool) []wsref.Frame {
 			return []wsref.Frame{fr(m, 1, true, false, Pattern(4, 130)), fr(m, 2, true, false, Pattern(0, 126))}
 		}},
